@@ -27,6 +27,12 @@ void harness(void) {
   mk(&TSp, 8, 1, 0, 0, 0, &Mb[0]); mk(&TSq, 8, 1, 1, 0, 0, &Mb[1]); mk(&TSr, 16, 2, 0, 0, 0, &Mb[2]); mk(&TSs, 16, 2, 1, 1, 0, &Mb[4]);
   mk(&TSt, 16, 2, 0, 1, 0, &Mb[6]); mk(&TSu, 16, 2, 1, 0, 0, &Mb[8]); mk(&TSm, 24, 3, 0, 0, 0, &Mb[10]);
   CG_ENTRY_STATE(1);                       /* the return address is on the stack */
+#ifdef VARIADIC
+  // a variadic callee: every argument register may carry an unnamed argument
+  uint64_t G[6], X[8];
+  for (int k = 0; k < 6; k++) { G[k] = nondet_u64_(); m.r[gpreg(k)] = G[k]; }
+  for (int k = 0; k < 8; k++) { X[k] = nondet_u64_(); m.xmm[k] = X[k]; }
+#endif
   for (int i = 0; i < 10; i++) if (i < NA) {
     char k = SIG[i];
     Type *t = k == 'i' ? &CGT[TI_LONG] : k == 'd' ? &CGT[TI_DOUBLE] : k == 'f' ? &CGT[TI_FLOAT] :
@@ -42,9 +48,16 @@ void harness(void) {
     }
   }
   AB.name = "__alloca_size__"; AB.ty = &CGT[TI_PTR]; AB.align = 8; AB.is_local = 1; AB.next = NA ? &P[0] : 0;
+#ifdef VARIADIC
+  static Obj VA; static Type VAT; VAT = (Type){TY_ARRAY, 136, 1}; VAT.base = &CGT[TI_CHAR]; VAT.array_len = 136;
+  VA = (Obj){0}; VA.name = "__va_area__"; VA.ty = &VAT; VA.align = 1; VA.is_local = 1; VA.next = NA ? &P[0] : 0; AB.next = &VA;
+#endif
   body.kind = ND_BLOCK; body.tok = &cg_tok; body.body = 0;
   FT.return_ty = &CGT[TI_INT];
   fn.name = "f"; fn.is_function = 1; fn.is_definition = 1; fn.is_live = 1; fn.ty = &FT; fn.params = NA ? &P[0] : 0; fn.locals = &AB; fn.alloca_bottom = &AB; fn.body = &body; fn.next = 0;
+#ifdef VARIADIC
+  FT.is_variadic = 1; fn.va_area = &VA;
+#endif
   depth = 0; cg_depth_base = 1;
   assign_lvar_offsets(&fn);
   emit_text(&fn);
@@ -63,4 +76,17 @@ void harness(void) {
       OBLIGE(AB.offset + 8 <= off || off + sz <= AB.offset, "C04.5 parameter homes do not overlap the frame's bookkeeping slot");
     }
   }
+#ifdef VARIADIC
+  // C06.6  the va_list the prologue builds (psABI 3.5.7): the register save area holds every argument register, and
+  // gp_offset / fp_offset designate, inside it, the slot of the FIRST UNNAMED argument register of each class - whatever
+  // slot size the implementation uses.  (Named parameters here are scalars in registers.)
+  int ngp = 0, nfp = 0; for (int i = 0; i < NA; i++) { if (SIG[i] == 'i') ngp++; else nfp++; }
+  long vo = VA.offset;
+  uint32_t gpo = (uint32_t)dm64(vo), fpo = (uint32_t)dm64(vo + 4); uint64_t ovf = dm64(vo + 8), rsa = dm64(vo + 16);
+  OBLIGE(rsa >= GM_DM_BASE && rsa + 136 <= GM_RBP + 64 && (long)(rsa - GM_RBP) >= vo && (long)(rsa - GM_RBP) < vo + 136, "C06.6 reg_save_area points into the function's own save area");
+  long r0 = (long)(rsa - GM_RBP);
+  OBLIGE(ngp >= 6 || (gpo <= 40 && dm64(r0 + gpo) == G[ngp]), "C06.6 gp_offset designates the saved copy of the first unnamed general-purpose argument register");
+  OBLIGE(nfp >= 8 || (fpo >= 48 && fpo <= 176 && dm64(r0 + fpo) == X[nfp]), "C06.6 fp_offset designates the saved copy of the first unnamed vector argument register");
+  OBLIGE(ovf == GM_RBP + 16, "C06.6 overflow_arg_area points at the first stack argument (no named argument is passed in memory here)");
+#endif
 }
